@@ -693,7 +693,12 @@ class PypiVersionRange(VersionRange):
     scheme = "pypi"
     version_class = versions.PypiVersion
 
+    # note: ORDER MATTER here: we test startswith(key) for each key in sequence
     vers_by_native_comparators = {
+        # 01.01.01 is NOT equal to 1.1.1 using === which is strict string
+        # equality this is a rare and eventually non-suggested approach
+        # (must come before "==" which is a prefix of it)
+        "===": None,
         # 01.01.01 is equal 1.1.1 e.g., with version normalization
         "==": "=",
         "!=": "!=",
@@ -706,9 +711,6 @@ class PypiVersionRange(VersionRange):
         # approximately equivalent to the pair of comparison clauses:
         # >= V.N, == V.*
         "~=": None,
-        # 01.01.01 is NOT equal to 1.1.1 using === which is strict string
-        # equality this is a rare and eventually non-suggested approach
-        "===": None,
     }
 
     @classmethod
